@@ -1,4 +1,5 @@
 use std::collections::HashMap;
+use std::convert::TryFrom;
 
 use itertools::Itertools;
 
@@ -259,6 +260,17 @@ impl ColumnParsing {
                             let value = ColumnParsing::extract_using_regex(&ValueType::Int, parsing_input, pattern, Value::Null);
 
                             if let Value::Int(value_i64) = value {
+                                // A part that does not fit its field cannot belong to a valid timestamp (and must not wrap around into one)
+                                let fits = match index {
+                                    0 => i32::try_from(value_i64).is_ok(),
+                                    1..=6 => u32::try_from(value_i64).is_ok(),
+                                    _ => true
+                                };
+
+                                if !fits {
+                                    return column.default_value();
+                                }
+
                                 match index {
                                     0 => { year = value_i64 as i32 },
                                     1 => { month = value_i64 as u32 },
@@ -270,7 +282,10 @@ impl ColumnParsing {
                                         if column.options.microseconds {
                                             microsecond = value_i64 as u32;
                                         } else {
-                                            microsecond = value_i64 as u32 * 1000;
+                                            match (value_i64 as u32).checked_mul(1000) {
+                                                Some(value) => { microsecond = value; }
+                                                None => { return column.default_value(); }
+                                            }
                                         }
                                     }
                                     _ => {}
